@@ -8,23 +8,21 @@ From QV Require Import Common.Prelude Engine.Model Engine.Core Engine.CoreSpec E
   Engine.MdlInvClean Engine.MdlRunBase Engine.MdlRun Engine.MdlRunAux Engine.MdlRunAll Engine.MdlCommit.
 Open Scope Z_scope.
 
-Lemma wf_model_facts : forall p, wf_model p ->
+Lemma wf_model_g_facts : forall p, wf_model_g p ->
   exists rk : node -> nat,
     (forall n e d, alookup p n = Some e -> In d (expr_reads e) -> (rk d < rk n)%nat) /\
     (forall n e d, alookup p n = Some e -> nkind n = KProjection -> In d (expr_reads e) -> is_fw_or_proj (nkind d) = true) /\
-    (forall n e, alookup p n = Some e -> no_group e = true) /\
     (forall n e d, alookup p n = Some e -> In d (expr_reads e) -> nkind d <> KExternal) /\
     (forall n e, alookup p n = Some e -> is_mexec_kind (nkind n) = true).
 Proof.
   intros p [Hkeys Htargets Hprj [rank Hrank]].
   exists (fun n => if is_mexec_kind (nkind n) then S (rank n) else O).
-  split; [|split; [|split; [|split]]].
-  - intros n e d He Hd. apply alookup_In in He. destruct (Hkeys n e He) as [Kn _]. rewrite Kn.
+  split; [|split; [|split]].
+  - intros n e d He Hd. apply alookup_In in He. rewrite (Hkeys n e He).
     destruct (Htargets n e d He Hd) as [Kd|[Kd _]].
     + rewrite Kd. cbn. lia.
     + rewrite Kd. specialize (Hrank n e d He Hd Kd). lia.
   - intros n e d He K Hd. apply alookup_In in He. eapply Hprj; eauto.
-  - intros n e He. apply alookup_In in He. apply (Hkeys n e He).
   - intros n e d He Hd. apply alookup_In in He. destruct (Htargets n e d He Hd) as [Kd|[Kd _]].
     + rewrite Kd. discriminate.
     + intro K. rewrite K in Kd. discriminate.
@@ -53,7 +51,6 @@ Variable rk : node -> nat.
 Hypothesis Hrk : forall n e d, alookup p n = Some e -> In d (expr_reads e) -> (rk d < rk n)%nat.
 Hypothesis Hproj : forall n e d, alookup p n = Some e -> nkind n = KProjection -> In d (expr_reads e) ->
   is_fw_or_proj (nkind d) = true.
-Hypothesis Hng : forall n e, alookup p n = Some e -> no_group e = true.
 Hypothesis Htgt : forall n e d, alookup p n = Some e -> In d (expr_reads e) -> nkind d <> KExternal.
 Hypothesis Hkeys : forall n e, alookup p n = Some e -> is_mexec_kind (nkind n) = true.
 
@@ -71,7 +68,7 @@ Lemma root_query : forall fuel inp s n o fr ms s1,
 Proof.
   intros fuel inp s n o fr ms s1 HB Hk Eq.
   pose proof (BInv_start inp s HB) as HI0.
-  destruct (proj1 (msound_all p rk (set_log s []) Hrk Hproj Hng Htgt Hkeys fuel) inp [] [] [] CUser None n _ o fr ms s1
+  destruct (proj1 (msound_all p rk (set_log s []) Hrk Hproj Htgt Hkeys fuel) inp [] [] [] CUser None n _ o fr ms s1
               HI0 (StkOk_nil rk n) (fun _ => eq_refl) Hk I eq_refl eq_refl (or_introl eq_refl) Eq)
     as (HI1 & _ & _ & i & Hi & Hv & Ho).
   split; [exact HI1|]. exists i. auto.
@@ -139,22 +136,27 @@ Proof.
 Qed.
 End Steps.
 
-(** * C01 on the full model, for every fuel *)
-Theorem model_sound_f : model_sound_statement_f.
+(** * C01 on the full model (unordered groups included), for every fuel *)
+Theorem model_sound_g_f : model_sound_g_statement_f.
 Proof.
   intros fuel pfuel p ops i n r z Hwf Hsc Hfuel Hop Hres Hz.
-  destruct (wf_model_facts p Hwf) as (rk & Hrk & Hproj & Hng & Htgt & Hkeys). apply MdlSpec_MSpecI.
-  unfold inputs_after. eapply (mrun_sound p rk Hrk Hproj Hng Htgt Hkeys); eauto. exists init_state. apply MInv_init.
+  destruct (wf_model_g_facts p Hwf) as (rk & Hrk & Hproj & Htgt & Hkeys). apply MdlSpec_MSpecI.
+  unfold inputs_after. eapply (mrun_sound p rk Hrk Hproj Htgt Hkeys); eauto. exists init_state. apply MInv_init.
 Qed.
 
 (** * C01 about the model's own [step] / [run_history] *)
-Theorem model_sound : model_sound_statement.
+Theorem model_sound_g : model_sound_g_statement.
 Proof.
   intros p ops i n r z Hwf Hsc Hfuel Hop Hres Hz.
   rewrite run_history_is_f in Hres.
-  eapply (model_sound_f fuel0 4000%nat); eauto.
+  eapply (model_sound_g_f fuel0 4000%nat); eauto.
   intros k sets b rk0 Hk Hk1 Hk2. rewrite <- run_history_is_f in Hk2. eapply Hfuel; eauto.
 Qed.
+
+Theorem model_sound_f : model_sound_statement_f.
+Proof. intros fuel pfuel p ops i n r z Hwf. apply model_sound_g_f. apply wf_model_g_of. exact Hwf. Qed.
+Theorem model_sound : model_sound_statement.
+Proof. intros p ops i n r z Hwf. apply model_sound_g. apply wf_model_g_of. exact Hwf. Qed.
 
 (** the hypothesis on fuel is needed, as for the fragments: a session whose dirty propagation
     ran out of the model's fixed fuel keeps the inputs without the dirt *)
@@ -239,6 +241,37 @@ Example mex_run :
     RSession [SUpdated; SUpdated]; RValue 13 ].
 Proof. vm_compute. reflexivity. Qed.
 
+(** * example with unordered groups (a projection over a group of firewalls) *)
+Definition mexg_prog : program :=
+  [ (mex_F 0, EMod (ERead (mex_I 0)) 3);
+    (mex_F 1, EMod (ERead (mex_I 1)) 2);
+    (mex_P 0, EGroup [mex_F 0; mex_F 1]);
+    (mex_N 0, EGroup [mex_F 0; mex_P 0; mex_I 2]);
+    (mex_N 1, EAdd (ERead (mex_N 0)) (EGroup [mex_F 1; mex_F 1])) ].
+Example mexg_prog_wf : wf_model_g mexg_prog.
+Proof.
+  split.
+  - intros n e H. mwf_cases H; reflexivity.
+  - intros n e d H Hd. mwf_cases H; min_cases Hd; (left; reflexivity) || (right; split; [reflexivity|discriminate]).
+  - intros n e d H K Hd. mwf_cases H; try discriminate K; min_cases Hd; reflexivity.
+  - exists (fun n => match nkind n with
+                     | KFirewall => 1%nat | KProjection => (2 + N.to_nat (nidx n))%nat
+                     | KNormal => (4 + N.to_nat (nidx n))%nat | _ => 0%nat end).
+    intros n e d H Hd K. mwf_cases H; min_cases Hd; try discriminate K; cbn; lia.
+Qed.
+Definition mexg_hist : list op :=
+  [ OSession [(0%N, 4); (1%N, 1); (2%N, 10)] false; OQuery (mex_N 1);
+    OSession [(0%N, 5)] false; OQuery (mex_N 0); OQuery (mex_N 1);
+    OSession [(1%N, 2); (2%N, 3)] false; OQuery (mex_N 1) ].
+Example mexg_run :
+  map r_out (run_history mexg_prog init_state mexg_hist) =
+  [ RSession [SFresh; SFresh; SFresh]; RValue 15;
+    RSession [SUpdated]; RValue 15; RValue 17;
+    RSession [SUpdated; SUpdated]; RValue 7 ].
+Proof. vm_compute. reflexivity. Qed.
+
+Print Assumptions model_sound_g_f.
+Print Assumptions model_sound_g.
 Print Assumptions model_sound_f.
 Print Assumptions model_sound.
 Print Assumptions model_sound_unguarded_refuted.
